@@ -24,10 +24,21 @@ def same_code_rule(F, G, rep):
         rep.ob("same-code.uses", f in edges, READ, f.split("::")[-1], "read() must obtain its data through the public incremental function %s" % f)
     vis = [F.fns.get(f, {}).get("vis") for f in INCR]
     rep.ob("same-code.public", all(v == "Public" for v in vis), READ, "visibility", "the incremental functions must be public: %s" % vis)
-    # other local readers called directly from read()?
-    direct = sorted(c for c in edges if c.startswith("io::slippi::de::") and c not in INCR and c not in (
-        "io::slippi::de::ParseState::frame_close", "io::slippi::de::invalid_data", "io::slippi::de::<impl std::convert::From<io::slippi::de::PartialGame> for game::immutable::Game>::from"))
-    rep.ob("same-code.no-private-path", not direct, READ, "private-readers", "read() decodes input through private functions the incremental API does not use: %s" % direct)
+    # other local functions called directly from read() that are handed the stream or the parse state (pure helpers are fine)
+    closers = set()
+    import bracket
+    op, closers = bracket.openers_closers(F, G)
+    direct = []
+    rb = F.body(READ)
+    for x in tir.walk(rb["tir"]["value"]):
+        if x.get("k") in ("Call", "MethodCall"):
+            c = reach.owner_of(callee(x) or "")
+            if c.startswith("io::slippi::de::") and c in G.local and c not in INCR and c not in closers and c != READ:
+                tys = [(a.get("aty") or a.get("ty") or "") for a in tir.call_args(x)]
+                if any("HashingReader" in t or "ParseState" in t or t.startswith("&mut R") or t == "R" for t in tys):
+                    direct.append(c)
+    direct = sorted(set(direct))
+    rep.ob("same-code.no-private-path", not direct, READ, "private-readers", "read() hands the stream or the parse state to private functions the incremental API does not use: %s" % direct)
     b = F.body(READ)
     bad = []
     n = 0
@@ -39,13 +50,13 @@ def same_code_rule(F, G, rep):
             n += 1
             if head not in READ_WRITERS:
                 bad.append((p, tir.sp(node)))
-            elif head == "state" and node.get("k") == "MethodCall" and (callee(node) or "") not in ("io::slippi::de::ParseState::frame_close",):
+            elif head == "state" and node.get("k") == "MethodCall" and reach.owner_of(callee(node) or "") not in closers:
                 bad.append((p + "." + node["method"], tir.sp(node)))
     rep.ob("same-code.writers", not bad, READ, "state-writers", "read() writes parse state outside the incremental functions: %s (allowed: %s)" % (bad[:4], sorted(READ_WRITERS)),
            sample={"writers_checked": n})
     # frame_close in read() only for < 3.0
     for x in tir.walk(b["tir"]["value"]):
-        if x.get("k") == "MethodCall" and (callee(x) or "") == "io::slippi::de::ParseState::frame_close":
+        if x.get("k") == "MethodCall" and reach.owner_of(callee(x) or "") in closers:
             par = safety.parents(b["tir"]["value"])
             y = x
             f = None
